@@ -19,8 +19,8 @@ func init() {
 		Rule: "operand-type matrix: every binary operator, unary operator, predicate and method applied to every pair/single from a kind corpus (null, booleans, float64, each json.Number class incl. 1e400/-1e400/1e-400/40-digit integers/-0, string classes, empty/non-empty arrays and objects, each datetime type obtained through .datetime()) passed as variables, both modes, silent and verbose, with and without WithTZ, through all five entry points; " +
 			"the generic random (path, document, options) workload through all five entry points; deep (2000+ levels) and long (10^5 elements) documents. On every call: recover(), error taxonomy, deep before/after comparison of document and variables, finiteness and sub-value membership of results. " +
 			"Non-trivial: the call returns an error or a non-empty result; distinct by (path, values, options, entry point)",
-		Run:    runC05,
-		Replay: replayC05,
+		Run:          runC05,
+		Replay:       replayC05,
 		MinExercised: map[string]int64{"panic": 100000, "class": 100000, "invalid": 100000, "input-mutated": 50000, "vars-mutated": 50000, "nonfinite": 20000, "foreign-container": 5000, "null-misuse": 50000},
 		Assumptions: []string{
 			"sub-value membership is by canonical value (a correct implementation that copies a container is not flagged)",
